@@ -135,6 +135,44 @@ fn now_ms() -> u64 {
 
 pub const WATCHDOG_MS: u64 = 10_000;
 
+/// watchdog trips that a fresh process could not confirm (stalls of the machine, not of the code)
+pub static FALSE_TRIPS: AtomicU64 = AtomicU64::new(0);
+
+/// re-run a scenario in a child process; true iff it does not finish within the watchdog time there
+fn confirm_hang(text: &str) -> bool {
+    let path = format!("/dev/shm/cfdp-verif-confirm-{}-{}.replay", std::process::id(), now_ms());
+    if std::fs::write(&path, text).is_err() {
+        return true;
+    }
+    let exe = match std::env::current_exe() {
+        Ok(e) => e,
+        Err(_) => return true,
+    };
+    let child = std::process::Command::new(exe).arg("runonly").arg(&path).stdout(std::process::Stdio::null()).stderr(std::process::Stdio::null()).spawn();
+    let mut child = match child {
+        Ok(c) => c,
+        Err(_) => return true,
+    };
+    let t0 = Instant::now();
+    let mut hung = true;
+    while t0.elapsed() < Duration::from_millis(WATCHDOG_MS + 5_000) {
+        match child.try_wait() {
+            Ok(Some(_)) => {
+                hung = false;
+                break;
+            }
+            Ok(None) => std::thread::sleep(Duration::from_millis(50)),
+            Err(_) => break,
+        }
+    }
+    if hung {
+        let _ = child.kill();
+        let _ = child.wait();
+    }
+    let _ = std::fs::remove_file(&path);
+    hung
+}
+
 /// debugging aid: VERIF_HUNT=<substring of an outcome tuple> dumps up to five matching scenarios
 fn hunt() -> Option<&'static String> {
     static H: std::sync::OnceLock<Option<String>> = std::sync::OnceLock::new();
@@ -163,14 +201,36 @@ pub fn run_job(
     let wd2 = wd.clone();
     let hang = on_hang.clone();
     let wd_thread = std::thread::spawn(move || {
+        let mut last = now_ms();
         while !wd2.stop.load(Ordering::Relaxed) {
             std::thread::sleep(Duration::from_millis(200));
             let now = now_ms();
+            // the whole process (or the whole VM: snapshots, oversubscription) may have been stalled:
+            // if this thread's own 200 ms nap took much longer, the overshoot is credited to every
+            // worker - only a worker that spins while the rest of the process runs normally trips
+            let overshoot = now.saturating_sub(last + 200);
+            last = now;
+            if overshoot > 500 {
+                for s in wd2.slots.iter() {
+                    let st = s.load(Ordering::Relaxed);
+                    if st != 0 {
+                        s.store(st + overshoot, Ordering::Relaxed);
+                    }
+                }
+                continue;
+            }
             for (i, s) in wd2.slots.iter().enumerate() {
                 let st = s.load(Ordering::Relaxed);
                 if st != 0 && now > st + WATCHDOG_MS {
                     let text = wd2.texts[i].lock().unwrap().clone().unwrap_or_default();
-                    hang(&text);
+                    // confirm in a fresh process before anything is reported: the scenario is
+                    // deterministic, a genuine spin hangs there too
+                    if confirm_hang(&text) {
+                        hang(&text);
+                    } else {
+                        FALSE_TRIPS.fetch_add(1, Ordering::Relaxed);
+                        s.store(now_ms(), Ordering::Relaxed);
+                    }
                 }
             }
         }
